@@ -38,6 +38,8 @@ func TestGovcReplay(t *testing.T) {
 		{"map does not swallow terminator", "max.take", func(o *GetOpt) { o.StringMap("m", 1, 3) }, []string{"--m", "k=v", "--", "a=b"}, []string{"a=b"}, false},
 		{"require order stops at a bundle with an unknown letter", "pair.unknown.stop", func(o *GetOpt) { o.SetMode(Bundling); o.SetUnknownMode(Pass); o.SetRequireOrder(); o.Bool("a", false); o.Bool("known", false) },
 			[]string{"-xa", "--known", "z"}, []string{"-xa", "--known", "z"}, false},
+		{"require order: a bundle with an unknown letter is handed over whole, nothing of it applied", "pair.unknown.stop", func(o *GetOpt) { o.SetMode(Bundling); o.SetUnknownMode(Pass); o.SetRequireOrder(); o.String("a", "") },
+			[]string{"-ab", "val", "x"}, []string{"-ab", "val", "x"}, false},
 		{"require order stops at an unknown option", "pair.unknown.stop", func(o *GetOpt) { o.SetUnknownMode(Pass); o.SetRequireOrder(); o.Bool("known", false) },
 			[]string{"--unk", "--known", "z"}, []string{"--unk", "--known", "z"}, false},
 		{"terminator ends parsing", "term.stops", func(o *GetOpt) { o.Bool("flag", false) }, []string{"a", "--", "--flag", "b"}, []string{"a", "--flag", "b"}, false},
